@@ -140,7 +140,8 @@ def main():
     ap.add_argument("--n", type=int, default=40)
     ap.add_argument("--seed", type=int, default=1)
     ap.add_argument("--workers", type=int, default=3)
-    ap.add_argument("--files", default=",".join(PROPS))
+    ap.add_argument("--files", default=",".join(k for k in PROPS if k.endswith(".rs")))
+    ap.add_argument("--slot-base", type=int, default=0)
     a = ap.parse_args()
     rng = random.Random(a.seed)
     cands = candidates(a.files.split(","))
@@ -156,7 +157,7 @@ def main():
                 queue.append(by[fn].pop())
     print(f"{len(cands)} candidate mutants, running {len(queue)}", flush=True)
     results, lock = [], threading.Lock()
-    ths = [threading.Thread(target=work, args=(k + 1, queue, results, lock)) for k in range(a.workers)]
+    ths = [threading.Thread(target=work, args=(a.slot_base + k + 1, queue, results, lock)) for k in range(a.workers)]
     for t in ths:
         t.start()
     for t in ths:
